@@ -1151,6 +1151,34 @@ func tailAfterBranchModules() []tailBranchMod {
 			wb.Cat(wb.I32Const(0), wb.Op(wasm.OpcodeIf, 0x40), wb.Op(wasm.OpcodeNop), wb.Op(wasm.OpcodeElse), rc(1), wb.Op(wasm.OpcodeEnd))},
 	}
 	var out []tailBranchMod
+	// tail-call cycles between functions with WIDE signatures: as many parameters / results as still travel in
+	// registers of both classes, and some beyond (where a back end may turn the tail call into call + return)
+	for _, ws := range []struct {
+		name   string
+		ni, nf int
+	}{{"tail-cycle-5-int-4-float-params", 5, 4}, {"tail-cycle-8-int-8-float-params", 8, 8}, {"tail-cycle-12-int-params", 12, 0}, {"tail-cycle-2-int-10-float-params", 2, 10}} {
+		var params []byte
+		for i := 0; i < ws.ni; i++ {
+			params = append(params, wb.I64)
+		}
+		for i := 0; i < ws.nf; i++ {
+			params = append(params, wb.F64)
+		}
+		m := wb.New()
+		var args, fwd []byte
+		for i, p := range params {
+			if p == wb.I64 {
+				args = append(args, wb.I64Const(int64(i))...)
+			} else {
+				args = append(args, wasm.OpcodeF64Const, 0, 0, 0, 0, 0, 0, 0, 0)
+			}
+			fwd = append(fwd, wb.LocalGet(uint32(i))...)
+		}
+		m.AddFunc(wb.Func{Params: []byte{wb.I32}, Export: "f0", Body: wb.Cat(args, wb.Call(1))})
+		m.AddFunc(wb.Func{Params: params, Body: wb.Cat(fwd, rc(2))})
+		m.AddFunc(wb.Func{Params: params, Body: wb.Cat(fwd, rc(1))})
+		out = append(out, tailBranchMod{ws.name, fmt.Sprintf("(func $a (param i64 x%d f64 x%d) (return_call $b (local.get 0) ...)) (func $b (same type) (return_call $a ...))", ws.ni, ws.nf), m.Bytes()})
+	}
 	for _, sh := range shapes {
 		m := wb.New()
 		m.AddFunc(wb.Func{Params: []byte{wb.I32}, Export: "f0", Body: wb.Call(1)})
